@@ -96,6 +96,13 @@ FLOAT_SITES = [
          inputs=['b0_shift', 'relative_b1', 'c', 'd', 'self_offsets', 'self_tp', 'self_b1_nom', 'self_gamma'], model='M.wasabi'),
     dict(name='wasabiti', file='operators/models/WASABITI.py', func=('WASABITI', 'forward'),
          inputs=['b0_shift', 'rb1', 't1', 'self_offsets', 'self_trec', 'self_tp', 'self_b1_nom', 'self_gamma'], model='M.wasabiti'),
+    # ConstraintsOp: the elementary maps (argument order of the source: x, beta; the model takes beta first)
+    dict(name='c_sigmoid', file='operators/ConstraintsOp.py', func=('ConstraintsOp', 'sigmoid'), inputs=['x', 'beta'], model='(fun x b => M.sigmoidT b x)'),
+    dict(name='c_sigmoid_inverse', file='operators/ConstraintsOp.py', func=('ConstraintsOp', 'sigmoid_inverse'), inputs=['x', 'beta'],
+         model='(fun x b => M.sigmoidInvT b x)'),
+    dict(name='c_softplus', file='operators/ConstraintsOp.py', func=('ConstraintsOp', 'softplus'), inputs=['x', 'beta'], model='(fun x b => M.softplusT b x)'),
+    dict(name='c_softplus_inverse', file='operators/ConstraintsOp.py', func=('ConstraintsOp', 'softplus_inverse'), inputs=['x', 'beta'],
+         model='(fun x b => M.softplusInvT b x)'),
 ]
 for _s in FLOAT_SITES:
     SITE_PROPS['sig_' + _s['name']] = 'C17'
